@@ -57,6 +57,16 @@ CHECKS = {
         'note': TB + 'Not decided: the Z[omega] coefficients of the replace_* terms and the sum identities, the final value, heuristic float arithmetic, the saved-terms clause.',
         'technique': 'sibling agreement of branch descriptors, type-level schedule argument (field-type scan), reduction/constructor table, facts-at-point contracts, freshness dataflow, effect schemas',
     },
+    'C06': {
+        'text': 'Static: backward slice of the Bernoulli parameter in sample(): it must combine two marginals (current decomp_graph result and a loop-carried '
+                'prefix probability) through a division, and the carried prefix must be updated from the joint on a 1 and from (old prefix, joint) on a 0; the '
+                'length validation returning Err(StringWrongLen) dominates the first use of the query string, both parsers default to Err; amplitude prints '
+                'Re(s*conj(s)); expectation prints Re(scalar) of g;P;g-adjoint with the adjoint taken before insertion; Pauli insertion table equals the reference '
+                '(Y = Z then X with phase 1/2) and preserves the type of the replaced boundary edge; all tasks go through decomp_graph whose branches differ only '
+                'in decompose_parallel vs decompose; task and driver dispatch tables.',
+        'note': TB + 'Not decided: the printed numbers (C05), independence of method as values, the distribution of samples.',
+        'technique': 'backward data-flow slicing, validate-before-use dominance, dispatch tables, edge-replacement rule, sibling agreement',
+    },
     'C07': {
         'text': 'Static: every lossy mantissa shift is paired with the lost-bit test that sets APPROX; a flag-taint analysis shows on every return path of '
                 'Dyadic add/mul that the result includes the APPROX bit of both operands; Ord::cmp is decided completely over the finite abstraction '
